@@ -90,6 +90,19 @@ func replayIsV1(path string) bool {
 	return e == "v1-proc" || e == "v1-acker" || e == "sandbox"
 }
 
+func replayIsPar(path string) bool {
+	cs, err := hx.ReadJSONL(path)
+	if err != nil || len(cs) == 0 {
+		return false
+	}
+	in, ok := UnwrapReplay(cs[0])["input"].(map[string]any)
+	if !ok {
+		return false
+	}
+	e, _ := in["engine"].(string)
+	return e == "v1-par"
+}
+
 // UnwrapReplay accepts, besides a plain case line {"input":...}, a replay file
 // written by the driver ({"case": {...}, "original_case": {...}, ...}).
 func UnwrapReplay(m map[string]any) map[string]any {
@@ -121,6 +134,10 @@ func Main(prop string) {
 	}
 	if o.Replay != "" && !strings.HasPrefix(o.Mode, "v1") && o.Mode != "probe" && replayIsV1(o.Replay) {
 		o.Mode = "v1:0:1"
+	}
+	if o.Mode != "v1child" && (strings.HasPrefix(o.Mode, "par") || (o.Replay != "" && replayIsPar(o.Replay))) {
+		ParMain(o) // classic engine ParallelNode (own case type, see v1par.go)
+		return
 	}
 	if strings.HasPrefix(o.Mode, "v1") {
 		V1Main(o) // classic engine nodes + built-in connector sandbox (own case type, see v1.go)
